@@ -10,6 +10,7 @@ from cirkit.utils.scope import Scope
 
 import evalc
 import export
+import foldexport
 import gen
 from cases import CaseSet, rng_for, pick_semiring, close
 
@@ -128,10 +129,22 @@ def one_case(rep, cs, seed, i):
         delta = np.array([gen.dy(rng, 0, 2, 8) for _ in range(cur.size)]).reshape(cur.shape)
         newvals[id(p)] = cur + delta
     outs0, outs1 = {}, {}
+    fold_terms = []
     for fold, opt in evalc.FLAGS:
         try:
             ctx = evalc.make_ctx(sem, fold, opt)
-            cc = ctx.compile(sc)
+            if fold:
+                with foldexport.recording() as rec:
+                    cc = ctx.compile(sc)
+                try:
+                    fx = foldexport.export(rec, cc)
+                    if fx is not None:
+                        fold_terms.append(((fold, opt), fx))
+                except Exception as e:
+                    rep.violation("fold-export-error", "the folded structure cannot be exported for the verified checker: " + repr(e)[:200],
+                                  {"case": desc, "flags": [fold, opt]}, found_input=False)
+            else:
+                cc = ctx.compile(sc)
             outs0[(fold, opt)] = evalc.evaluate(cc, sc, ys, sem, width=w)
             # ---- addressability: exactly one slice of exactly one compiled tensor ----
             state = ctx._compiler.state
@@ -180,10 +193,19 @@ def one_case(rep, cs, seed, i):
     except export.ExportError as e:
         rep.violation("export-error", str(e), {"case": desc}, found_input=False)
         return
-    term = f"[den_vs {tc} {export.ex_asgs(ys)} {export.ex_vals(outs1[fl])}]"
+    fparts = []
+    for flg, (gins, F, outs_, oids, ocum) in fold_terms:
+        fparts.append(f"b2n (uwf_b {gins} && fwf_b {F} && ab_check {gins} {F} && out_check {F} {outs_} {oids} {ocum})")
+    term = f"[den_vs {tc} {export.ex_asgs(ys)} {export.ex_vals(outs1[fl])}" + "".join("; " + p for p in fparts) + "]"
+    fflags = [flg for flg, _ in fold_terms]
 
-    def interp(res, desc=desc, ys=ys, fl=fl):
-        (dv,) = res
+    def interp(res, desc=desc, ys=ys, fl=fl, fflags=fflags):
+        dv = res[0]
+        for flg, r in zip(fflags, res[1:]):
+            rep.count(f"coq:ab_check={r}")
+            if r != 1:
+                rep.violation("address-book-inconsistent", "the verified checker (FoldCheck.ab_check / out_check) rejects the address book of the folded circuit",
+                              {"case": desc, "flags": list(flg)}, found_input=False)
         rep.count(f"coq:den_vs={dv}")
         if dv == 0:
             rep.violation("compiled-vs-denotation-updated", "after writing new parameter values through the registry the compiled output differs from the denotation",
